@@ -457,15 +457,28 @@ def _time_axes(ctx, prog):
            f"speeds: x={fmt(x)}, y={fmt(y)} — expected timestamps[1:] "
            f"(shifted) against traj.speeds", key="C20.4:speeds")
     f = prog.func(PL + "error_array")
+    xa, ea = tm.param("x_array"), tm.param("err_array")
+
+    def x_is_none(t: T, xnone: bool):
+        if t.op == "cmp" and t.args[0] in ("Is", "IsNot") and \
+                {t.args[1], t.args[2]} == {xa, tm.NONE}:
+            return xnone == (t.args[0] == "Is")
+        return None
     for cum in (False, True):
-        r = Interp(prog, inline=_helpers).run(f, {"cumulative": const(cum)})
-        plots = [e for e in r.of_kind("call")
-                 if e.data.get("name") == ".plot"]
-        xa, ea = tm.param("x_array"), tm.param("err_array")
+        got = {}
+        for xnone in (False, True):
+            r = Interp(prog, inline=_helpers,
+                       assume=lambda t, v=xnone: x_is_none(t, v)).run(
+                f, {"cumulative": const(cum)})
+            ctx.analysed["configs"] += 1
+            got[xnone] = [e for e in r.of_kind("call")
+                          if e.data.get("name") == ".plot" and
+                          not tm.is_const(e.live, False)]
         val = tm.call(tm.glob("numpy.cumsum"), (ea,), ()) if cum else ea
-        ok = len(plots) == 2 and any(
-            tuple(e.data["args"]) == (xa, val) for e in plots) and any(
-            tuple(e.data["args"]) == (val,) for e in plots)
+        plots = got[False] + got[True]
+        ok = len(got[False]) == 1 and len(got[True]) == 1 and \
+            tuple(got[False][0].data["args"]) == (xa, val) and \
+            tuple(got[True][0].data["args"]) == (val,)
         ctx.ob("C20.4", plots[0] if plots else f, ok,
                f"error_array[cumulative={cum}]: values (cumsum iff "
                f"cumulative) against x_array, in that order; against the "
